@@ -56,13 +56,48 @@ fn to_primitive_number(value: &Value) -> Option<f64> {
     }
 }
 
-pub fn str_to_number<S: AsRef<str>>(string: S) -> Option<f64> {
-    let s = string.as_ref();
-    if s == "" {
-        Some(0.0)
-    } else {
-        f64::from_str(s).ok()
+/// White space and line terminators, as skipped by the JS string-to-number conversion.
+fn is_js_whitespace(c: char) -> bool {
+    match c {
+        '\u{9}'..='\u{d}' | ' ' | '\u{a0}' | '\u{1680}' | '\u{2000}'..='\u{200a}' => true,
+        '\u{2028}' | '\u{2029}' | '\u{202f}' | '\u{205f}' | '\u{3000}' | '\u{feff}' => true,
+        _ => false,
     }
+}
+
+/// Digits of a `0x` / `0o` / `0b` literal.
+fn parse_radix_digits(digits: &str, radix: u32) -> Option<f64> {
+    if digits.is_empty() {
+        return None;
+    }
+    digits.chars().try_fold(0.0, |acc, c| {
+        c.to_digit(radix).map(|d| acc * (radix as f64) + (d as f64))
+    })
+}
+
+/// Convert a string to a number like JS `Number(string)` does, returning
+/// None where that would return NaN.
+pub fn str_to_number<S: AsRef<str>>(string: S) -> Option<f64> {
+    let s = string.as_ref().trim_matches(is_js_whitespace);
+    if s == "" {
+        return Some(0.0);
+    }
+    for (lower, upper, radix) in [("0x", "0X", 16), ("0o", "0O", 8), ("0b", "0B", 2)].iter() {
+        if let Some(digits) = s.strip_prefix(lower).or_else(|| s.strip_prefix(upper)) {
+            return parse_radix_digits(digits, *radix);
+        }
+    }
+    match s {
+        "Infinity" | "+Infinity" => return Some(f64::INFINITY),
+        "-Infinity" => return Some(f64::NEG_INFINITY),
+        _ => {}
+    }
+    // Rust's float parser also accepts "inf", "infinity" and "nan" in any
+    // case, which are not numeric strings in JS.
+    if !s.chars().all(|c| NUMERICS.contains(&c)) {
+        return None;
+    }
+    f64::from_str(s).ok()
 }
 
 enum Primitive {
